@@ -110,3 +110,15 @@ MUTANTS += [
     ("c06_footprint_not_reflected", "C06", "solver.py", '        p = fft2(fftp, norm="backward").real  # concentration\n        q = fft2(fftq, norm="backward").real  # kinematic flux\n', '        p = ifft2(fftp, norm="forward").real  # concentration\n        q = ifft2(fftq, norm="forward").real  # kinematic flux\n'),
     ("c06_recentre_only_x", "C06", "solver.py", "    elif xm**2 + ym**2 > 0.0:\n", "    elif xm > 0.0:\n"),
 ]
+
+MUTANTS += [
+    # ---- C07
+    ("c07_kx_for_ky_in_Ti", "C07", "solver.py", "        Ti = -(Kx[i] * Lx**2 + Ky[i] * Ly**2) - 1j * u[i] * Lx - 1j * v[i] * Ly\n", "        Ti = -(Kx[i] * Lx**2 + Kx[i] * Ly**2) - 1j * u[i] * Lx - 1j * v[i] * Ly\n"),
+    ("c07_kx_for_ky_in_eigval", "C07", "solver.py", "    KyKzinv = Ky[nz - 1] * Kzinv\n", "    KyKzinv = Kx[nz - 1] * Kzinv\n"),
+    ("c07_u_for_v", "C07", "solver.py", "        + 1j * v[nz - 1] * Kzinv * Ly[msk]\n", "        + 1j * u[nz - 1] * Kzinv * Ly[msk]\n"),
+    ("c07_dx_for_dy", "C07", "solver.py", "    py = int(halo / dy)\n", "    py = int(halo / dx)\n"),
+    ("c07_absolute_length", "C07", "solver.py", "    if halo is None:\n        halo = max(xmx, ymx)\n", "    if halo is None:\n        halo = max(xmx, ymx, 500.0)\n"),
+    ("c07_abs_wind_x", "C07", "solver.py", "        Ti = -(Kx[i] * Lx**2 + Ky[i] * Ly**2) - 1j * u[i] * Lx - 1j * v[i] * Ly\n", "        Ti = -(Kx[i] * Lx**2 + Ky[i] * Ly**2) - 1j * np.abs(u[i]) * Lx - 1j * v[i] * Ly\n"),
+    ("c07_stray_velocity", "C07", "solver.py", "        Ti = -(Kx[i] * Lx**2 + Ky[i] * Ly**2) - 1j * u[i] * Lx - 1j * v[i] * Ly\n", "        Ti = -(Kx[i] * Lx**2 + Ky[i] * Ly**2) - 1j * (u[i] + 1e-3) * Lx - 1j * v[i] * Ly\n"),
+    ("c07_stray_diffusivity", "C07", "solver.py", "        Kzinv = 1.0 / Kz[i]\n        dzi = dz[i]\n", "        Kzinv = 1.0 / (Kz[i] + 1e-4)\n        dzi = dz[i]\n"),
+]
